@@ -656,6 +656,19 @@ def _p_huge_power(tree, ln, col, det, ctxd):
     return not any(k == "timeout" for k, _, _ in r["problems"])
 
 
+def _p_newtype_nonclass(tree, ln, col, det, ctxd):
+    """NewType(name, X) with X not a plain (dotted) name, anywhere in the module (annotations included)."""
+    trees = [tree] + annotation_exprs([tree])
+    for t in trees:
+        for n in ast.walk(t):
+            if isinstance(n, ast.Call) and len(n.args) == 2:
+                f = n.func
+                if (f.id if isinstance(f, ast.Name) else f.attr if isinstance(f, ast.Attribute) else None) == "NewType" and \
+                        not isinstance(n.args[1], (ast.Name, ast.Attribute)):
+                    return True
+    return False
+
+
 def _p_typevar_constraints(tree, ln, col, det, ctxd):
     for n in ast.walk(tree):
         if isinstance(n, ast.Call) and len(n.args) >= 3:
@@ -695,6 +708,7 @@ KNOWN_CLASSES = [
     ("suggestedTypeOfMetaclass", ("internal_error",), lambda s, d: s == ("TypeError", "suggested_type.py::get_shared_type"),
      lambda t, ln, col, d, c: any(isinstance(n, ast.Name) and n.id == "type" and isinstance(n.ctx, ast.Load) for n in ast.walk(t))),
     ("constrainedTypeVarBoolability", ("internal_error",), lambda s, d: s == ("AssertionError", "boolability.py::_get_boolability_no_mvv"), _p_typevar_constraints),
+    ("newTypeOfNonClass", ("internal_error",), lambda s, d: s == ("AttributeError", "typeshed.py::_get_info_for_name"), _p_newtype_nonclass),
     ("stringAnnotationPosition", ("bad-col", "bad-line"), lambda s, d: True, _p_string_position),
     ("hugeConstantPower", ("timeout",), lambda s, d: True, _p_huge_power),
 ]
